@@ -36,7 +36,7 @@ RULE = (
     "distance comparison. Non-trivial = at least 2 points and (>= 2 clusters or a cluster with >= 2 members) / at "
     "least 2 columns on each side; distinct = hash of spec."
 )
-BUDGET = {"quick": {"cases": 8000, "seconds": 40}, "thorough": {"cases": 500000, "seconds": 1100}}
+BUDGET = {"quick": {"cases": 6000, "seconds": 40}, "thorough": {"cases": 500000, "seconds": 1100}}
 TECHNIQUE = "property-based testing (Hypothesis): constructed clusters with known labels; brute-force set comparison"
 LEVEL_TEXT = ("Exploration: thousands of generated clustered point sets per run whose cluster norms are packed within "
               "fractions of the tolerance (the situation the norm pre-bucketing must survive), compared exactly with "
